@@ -11,14 +11,15 @@ Lemma next_tasks_fields : forall g done r ev,
   rs_steps (next_tasks g done r ev) = rs_steps r /\
   rs_max (next_tasks g done r ev) = rs_max r /\
   rs_opts (next_tasks g done r ev) = rs_opts r /\
-  rs_st (next_tasks g done r ev) = rs_st r.
+  rs_st (next_tasks g done r ev) = rs_st r /\
+  rs_cancel (next_tasks g done r ev) = rs_cancel r.
 Proof.
   intros g done r ev. unfold next_tasks.
   destruct (resolve_all g (rs_st r) done (rs_chans r)) as [rc bev].
-  destruct rc as [cs|e]; simpl; auto.
+  destruct rc as [cs|e]; simpl; auto 6.
   destruct (get_ready (g_dag g) cs) as [rdy cs'].
-  destruct rdy as [ready|e]; simpl; auto.
-  destruct (alist_get ENDK ready); simpl; auto.
+  destruct rdy as [ready|e]; simpl; auto 6.
+  destruct (alist_get ENDK ready); simpl; auto 6.
 Qed.
 
 Section Sstep1.
@@ -28,6 +29,7 @@ Section Sstep1.
   Lemma sstep1_progress : forall g r, rs_res r = None -> exists r', sstep1 run_sub g r = Some r'.
   Proof.
     intros g r H. unfold sstep1. rewrite H.
+    destruct (cancelled r); [eexists; reflexivity|].
     destruct (negb (g_dag g) && Nat.leb (rs_max r) (rs_steps r)); [eexists; reflexivity|].
     destruct (rs_next r) as [|t ts]; [eexists; reflexivity|].
     destruct (run_pres g (t :: ts) (rs_st r)) as [[tasks1 st1] ev1].
@@ -46,6 +48,8 @@ Section Sstep1.
   Proof.
     intros g r r' H. unfold sstep1 in H.
     destruct (rs_res r); try discriminate.
+    destruct (cancelled r).
+    { inversion H; subst; simpl. repeat split; auto. left; discriminate. }
     destruct (negb (g_dag g) && Nat.leb (rs_max r) (rs_steps r)).
     { inversion H; subst; simpl. repeat split; auto. left; discriminate. }
     destruct (rs_next r) as [|t ts].
@@ -55,17 +59,18 @@ Section Sstep1.
     destruct err.
     { inversion H; subst; simpl. repeat split; auto. left; discriminate. }
     inversion H; subst; clear H.
-    match goal with |- context [next_tasks ?g ?d ?r0 ?e] => destruct (next_tasks_fields g d r0 e) as (A & B & Cc & _) end.
+    match goal with |- context [next_tasks ?g ?d ?r0 ?e] => destruct (next_tasks_fields g d r0 e) as (A & B & Cc & _ & _) end.
     simpl in *. rewrite A, B, Cc. repeat split; auto.
   Qed.
 
   (* at the step limit an any-predecessor run ends (with the step-limit error) *)
   Lemma sstep1_limit : forall g r, g_dag g = false -> rs_res r = None -> rs_max r <= rs_steps r ->
-    exists r', sstep1 run_sub g r = Some r' /\ rs_res r' = Some (Fail "maxsteps"%string).
+    exists r', sstep1 run_sub g r = Some r' /\
+               rs_res r' = Some (Fail (if cancelled r then "other" else "maxsteps")%string).
   Proof.
     intros g r Hd Hr Hle. unfold sstep1. rewrite Hr, Hd. simpl.
     assert (E : Nat.leb (rs_max r) (rs_steps r) = true) by (apply Nat.leb_le; exact Hle).
-    rewrite E. eexists; split; reflexivity.
+    rewrite E. destruct (cancelled r); eexists; split; reflexivity.
   Qed.
 End Sstep1.
 
@@ -83,7 +88,7 @@ Lemma sstep_measure : forall d g r r', sstep d g r = Some r' ->
 Proof. intros d g r r' H. destruct (sstep_unfold d g r) as (rs & E). rewrite E in H. eapply sstep1_measure; eauto. Qed.
 
 Lemma sstep_limit : forall d g r, g_dag g = false -> rs_res r = None -> rs_max r <= rs_steps r ->
-  exists r', sstep d g r = Some r' /\ rs_res r' = Some (Fail "maxsteps"%string).
+  exists r', sstep d g r = Some r' /\ rs_res r' = Some (Fail (if cancelled r then "other" else "maxsteps")%string).
 Proof. intros d g r A B Cc. destruct (sstep_unfold d g r) as (rs & E). rewrite E. apply sstep1_limit; auto. Qed.
 
 (* a run is final (no step enabled) exactly when it has a result *)
@@ -214,11 +219,11 @@ Definition ex_graph : graph :=
         [Branch "w" BLoop ["w"; "f"]] false 30 0%N [] [].
 Definition ex_obj : cobj := {| co_graph := ex_graph; co_depth := 1 |}.
 Definition ex_call1 : call :=
-  {| ca_in := VR tagS 0 2 "in2"; ca_opts := [{| o_kind := 0; o_paths := [["a"]]; o_val := "d0" |}]; ca_max := None; ca_fut := false; ca_suffix := "" |}.
+  {| ca_in := VR tagS 0 2 "in2"; ca_opts := [{| o_kind := 0; o_paths := [["a"]]; o_val := "d0" |}]; ca_max := None; ca_fut := false; ca_cancel := None; ca_suffix := "" |}.
 Definition ex_call2 : call :=
-  {| ca_in := VR tagS 0 3 "in3"; ca_opts := []; ca_max := None; ca_fut := false; ca_suffix := "" |}.
+  {| ca_in := VR tagS 0 3 "in3"; ca_opts := []; ca_max := None; ca_fut := false; ca_cancel := None; ca_suffix := "" |}.
 Definition ex_call3 : call :=
-  {| ca_in := VR tagS 0 5 "in5"; ca_opts := []; ca_max := Some 5; ca_fut := false; ca_suffix := "" |}.
+  {| ca_in := VR tagS 0 5 "in5"; ca_opts := []; ca_max := Some 5; ca_fut := false; ca_cancel := None; ca_suffix := "" |}.
 Definition ex_sched : list nat := [0; 1; 2; 2; 1; 0; 0; 1; 2; 1; 0; 2; 2; 0; 1; 0; 2]%nat.
 
 Lemma ex_interleaved :
